@@ -156,10 +156,15 @@ def check_parse(s, raw, out):
         return "representable integer literal not parsed exactly"
     if not finite_parts(s, ival, fdig, e):
         return None  # outside the stated domain
+    mf = max_finite(s)
+    if exact > mf - 6 * ulp_max(s):
+        # overflow regime (the exact value is within 6 ulps of, or beyond, the largest finite value):
+        # infinity or the saturated largest finite value, as the mode dictates (C02), are both accepted
+        if v["cat"] == "I" or (v["cat"] == "N" and abs(val_of(v)) >= mf - 6 * ulp_max(s)):
+            return None
+        return "overflow regime: neither infinity nor a value within 6 ulps of the largest finite value"
     if v["cat"] == "I":
-        # allowed only if the exact value is within 6 ulps of / beyond the range
-        mf = max_finite(s)
-        return None if exact > mf - 6 * ulp_max(s) else "spurious infinity"
+        return "spurious infinity"
     r = abs(val_of(v))
     u = ulp_of(v) if v["cat"] == "N" else ulp_of({"cat": "Z", "sem": s, "exp": 0})
     # ulp measured at the exact value's binade when the result is zero/subnormal
@@ -211,7 +216,7 @@ def check_const(name, s, out):
         return "not a positive finite value"
     err = ulp_err(v, true_const(name, s))
     if name == "ln2":
-        bound = 2 + Fraction(s.P, 256)
+        bound = 2 + s.P / 256.0
     else:
         bound = 1 if s.M in ("E", "A") else 2
     return None if err <= bound else "%s error %.3g ulps > %s" % (name, float(err), bound)
